@@ -1096,11 +1096,16 @@ def nearest_item_tight(n):
 def p_tight_item_blank_line_in_quote(case):
     """inside an item of a tight list, two consecutive blocks of a container other than the item itself (a
     block quote) that only a blank line keeps apart: paragraph + paragraph, paragraph + HTML block of start
-    condition 7 (cannot interrupt a paragraph), table + paragraph or table (the line becomes a table row).
+    condition 7 (cannot interrupt a paragraph), table + paragraph or table (the line becomes a table row),
+    HTML block of start condition 6 or 7 (it ends only at a blank line) + anything.
     in_tight_list_item stays set for everything below the item, and output() caps every need_cr to 1 there"""
-    for b in case.nodes(("Paragraph", "HtmlBlock", "Table")):
+    for b in case.nodes():
         a = b.prev()
-        if a is None or b.parent.kind in ("Item", "TaskItem", "Document") or not nearest_item_tight(b):
+        if a is None or b.parent.kind == "Document" or not nearest_item_tight(b):
+            continue
+        if a.kind == "HtmlBlock" and a.f[0] in ("6", "7"):
+            return True
+        if b.parent.kind in ("Item", "TaskItem"):
             continue
         if a.kind == "Paragraph" and (b.kind == "Paragraph" or (b.kind == "HtmlBlock" and b.f[0] == "7")):
             return True
